@@ -184,6 +184,41 @@ def inproc(ctx):
         zcases.append({"cfg": cfg, "forest": fo, "evs": evs, "res": res})
         ctx.case(key=("sel2z", repr(cfg), tuple(evs)), tags=["sel2-spec", "sel2:-Z", "shape:" + cfg["shape"]] +
                  sorted({"sel2:" + k for t in cfg["trig"].values() for k in t}), size=len(evs))
+    # the finish trigger: one function has -T f@finish, on top of a random option set (filters, depth limit, switches);
+    # the records of the implementation against the model run that stops at the first firing entry, and - same
+    # options and history - the two instrumentation shapes against each other
+    fincases = []
+    for i in range(ctx.n(20, 200)):
+        cfg = {"trig": {}, "pattern": rng.choice(["simple", "regex", "glob"])}
+        ks = rng.sample(range(6), rng.randrange(1, 4))
+        cfg["trig"][ks[0]] = {"finish": True}
+        if rng.random() < 0.3:
+            cfg["trig"][ks[0]]["filter"] = rng.random() < 0.5
+        for k in ks[1:]:
+            tr = {}
+            r = rng.random()
+            if r < 0.35:
+                tr["filter"] = rng.random() < 0.6
+            elif r < 0.5:
+                tr["depth"] = rng.choice([0, 1, 2])
+            elif r < 0.65:
+                tr["time"] = rng.choice([0, 5, 100])
+            elif r < 0.8:
+                tr["trace_off"] = True
+            else:
+                tr["trace_on"] = True
+            cfg["trig"][k] = tr
+        if rng.random() < 0.6:
+            cfg["depth"] = rng.choice([1, 2, 3])
+        if rng.random() < 0.3:
+            cfg["threshold"] = rng.choice([1, 5, 10])
+        fo = F.assign_times(rng, F.gen_shape(rng, 6, rng.choice([4, 8, 16]), 5), durs=DURS)
+        evs = F.flatten(fo)
+        r1 = mcgen.run_case(h, dict(cfg, shape="pg"), evs)
+        r2 = mcgen.run_case(h, dict(cfg, shape="cyg"), evs)
+        fincases.append({"cfg": cfg, "evs": evs, "pg": r1, "cyg": r2})
+        ctx.case(key=("finish", repr(cfg), tuple(evs)), tags=["finish-trigger"] +
+                 sorted({"fin:" + k for t in cfg["trig"].values() for k in t}), size=len(evs))
     # ---- evaluate in Coq
     terms = [mcgen.case_term(c["cfg"], c["evs"], c["res"]) for c in cases]
     defs = "Definition cases : list case4 := [\n%s\n].\n" % ";\n".join(terms)
@@ -230,10 +265,17 @@ def inproc(ctx):
         "(%d, %s)" % (c["cfg"]["min_size"], mcgen.case_term(c["cfg"], c["evs"], c["res"])) for c in zcases)
     defs += "Definition sel2zchk : list bool := [\n%s\n].\n" % ";\n".join(sel2_term(c, c["cfg"]["min_size"]) for c in zcases)
     defs += "Definition sel2chk : list bool := [\n%s\n].\n" % ";\n".join(sel2_terms)
+    defs += "Definition fincases : list (cfg * list ev * list seen5 * bool) := [\n%s\n].\n" % ";\n".join(
+        "(%s, %s, %s, %s)" % (F.coq_cfg(dict(c["cfg"], shape=sh), mch.SIZES), F.coq_events(c["evs"]),
+                              mcgen.coq_recs(c[sh]["recs"]), coq.coq_bool(sh == "pg"))
+        for c in fincases for sh in ("pg", "cyg"))
     res = coq.run_cases(ctx, "c05_cases", mcgen.PRE, defs, [
         ("sel", "bad_indices (fun b : bool => b) selchk 0"),
         ("sel2", "bad_indices (fun b : bool => b) sel2chk 0"),
         ("sel2z", "bad_indices (fun b : bool => b) sel2zchk 0"),
+        ("fin", "bad_indices (fun p : cfg * list ev * list seen5 * bool => let '(a, b, r, _) := p in ok_fin a b r) fincases 0"),
+        ("finfired", "bad_indices (fun p : cfg * list ev * list seen5 * bool => let '(a, b, _, _) := p in negb (fin_fired a b)) "
+                     "fincases 0"),
         ("zmismatch", "bad_indices agree4z zcases 0"),
         ("mismatch", "bad_indices agree4 cases 0"),
         ("leaky", "bad_indices (fun c : case4 => let '(a, b, _, _) := c in negb (leaky a b)) cases 0"),
@@ -294,6 +336,20 @@ def inproc(ctx):
                       {"correspondence": "UV.Mcount.Model (init_z) vs libmcount hooks (state after each hook + records)",
                        "cfg": c["cfg"], "env": mch.cfg_env(c["cfg"]), "events": c["evs"],
                        "impl_states": c["res"]["states"], "impl_records": c["res"]["recs"]}, False)
+    ctx.extra["finish_cases_in_which_the_trigger_fired"] = len(R["finfired"])
+    finm = [j for j, c in enumerate(fincases) if c["pg"]["recs"] != c["cyg"]["recs"]]
+    for j in finm[:2]:
+        c = fincases[j]
+        ctx.violation("C05: with a finish trigger the recorded trace depends on the instrumentation method",
+                      {"mode": "pair", "cfg": c["cfg"], "events": c["evs"], "pg_records": c["pg"]["recs"],
+                       "cyg_records": c["cyg"]["recs"], "env": mch.cfg_env(c["cfg"])}, True)
+    if R["fin"] and not finm:
+        c = fincases[R["fin"][0] // 2]
+        ctx.violation("model and libmcount disagree on %d finish-trigger case(s) (records after the run); the two "
+                      "instrumentation shapes agree with each other on every explored case" % len(R["fin"]),
+                      {"correspondence": "UV.Mcount.Model exec_f / finish_enter vs libmcount (-T f@finish)",
+                       "cfg": c["cfg"], "env": mch.cfg_env(c["cfg"]), "events": c["evs"],
+                       "pg_records": c["pg"]["recs"], "cyg_records": c["cyg"]["recs"]}, False)
     for j in R["method"][:2]:
         p = pairs[j]
         ctx.violation("C05: recorded trace depends on the instrumentation method",
@@ -446,12 +502,14 @@ def meta(ctx):
     ctx.assume = [
         "pattern matching itself (regexec/fnmatch) and the option -> trigger-table translation (utils/filter.c) are "
         "exercised by the tie but not modelled; one trigger spec per function",
-        "finish, recover, argument capture and events are outside this model; the location filter -L is in the model and in "
+        "recover, argument capture and events are outside this model; the finish trigger is modelled at the level of the "
+        "thread's stream (exec_f: the run stops at the first firing entry; what other threads do after the global flag "
+        "is set is not modelled); the location filter -L is in the model and in "
         "the specification sel2 (theorems quantify over it) but its tie is end-to-end only (generated programs whose "
         "functions carry #line source locations; the in-process harness functions have no DWARF)",
         "refinement to the documented semantics is proved for -F/-N/-C/-D/-t and the trigger actions filter/notrace/"
         "depth=(>0)/time=/size=/trace (specifications sel, sel2, both instrumentation shapes); "
-        "trace_on/trace_off, finish and depth=0 are tied by correspondence + the restoration and embedded-sub-history "
+        "trace_on/trace_off, finish and depth=0 are tied by correspondence (finish: records only) + the restoration and embedded-sub-history "
         "theorems only",
         "theorems quantify over complete call forests within --max-stack and clock readings < 2^64 that do not go "
         "backwards inside a call; end times are non-zero (libmcount uses 0 for 'still running')",
